@@ -75,9 +75,13 @@ func (r *Reader) Header() *Header {
 func (r *Reader) Read() (*Record, error) {
 	b, err := r.r.ReadBytes('\n')
 	if err != nil {
-		return nil, err
+		if err != io.EOF || len(b) == 0 {
+			return nil, err
+		}
+		// The last line of the input has no trailing newline.
+	} else {
+		b = b[:len(b)-1]
 	}
-	b = b[:len(b)-1]
 	if b[len(b)-1] == '\r' {
 		b = b[:len(b)-1]
 	}
